@@ -141,16 +141,15 @@ def scaled_euclid(X, obs, scale):
 def std_tol(rows):
     """(numpy.std per column, admissible absolute deviation per column).
 
-    1e-9 relative, widened for ill-conditioned columns: any one-pass / batched running-variance recurrence carries a
-    rounding error of order eps * (max|x| / std)^2 relative to the result (two nearly equal rows far from zero), which
-    is float rounding of a mathematically equal expression, not a different scale.  A wrong formula (sample instead of
-    population variance, stale mean, wrong count) is off by >= 1/(2n) relative and stays far outside this bound for
-    every generated data set."""
+    1e-9 relative, widened for columns far from zero by 1e3 * eps * max|x| absolute: that is the rounding any standard
+    deviation computed from centred data carries (numpy.std itself included). A recurrence that squares uncentred data
+    loses eps * (max|x| / std)^2 instead and makes the scale depend on how the rows were split into batches - the statement
+    rules that out (the unrepaired add_data was off by 2 % for one 1000-row batch at 1e7 +- 2), so it is not admitted."""
     rows = np.asarray(rows, dtype=float)
     sd = np.std(rows, axis=0)
     mx = np.max(np.abs(rows), axis=0)
     with np.errstate(all='ignore'):
-        extra = np.where(sd > 0, 1e3 * EPS * mx * mx / np.where(sd > 0, sd, 1.0), 1e-9 * mx)
+        extra = np.where(sd > 0, 1e3 * EPS * mx, 1e-9 * mx)
     return sd, RTOL * sd + extra
 
 
@@ -253,7 +252,7 @@ def run_dist(ctx, case):
 def _model_spec(rng):
     k = int(rng.integers(1, 5))
     return {'widths': [int(rng.integers(1, 5)) for _ in range(k)], 'flat': [bool(rng.random() < 0.6) for _ in range(k)],
-            'mseed': int(rng.integers(0, 2 ** 31 - 1)), 'offs': float(rng.choice([0.0, 3.0, 50.0])),
+            'mseed': int(rng.integers(0, 2 ** 31 - 1)), 'offs': float(rng.choice([0.0, 3.0, 50.0, 1e4, 1e6])),
             'prior': str(rng.choice(['uniform', 'norm']))}
 
 
